@@ -18,6 +18,9 @@ DESIGN8 = DESIGN6 + [[1.5, 1.5], [3.5, 3.5]]
 LABELS = {"01": (0, 1), "m11": (-1, 1), "ab": ("a", "b"), "fl": (0.5, 2.5)}
 
 
+LAYOUTS = ["Fortran order", "strided window of a larger table", "negative strides", "transposed window", "read-only"]
+
+
 def bounds(tier):
     return {"n": 6 if tier == "quick" else 8}
 
@@ -34,6 +37,9 @@ def cases(tier, seed):
                 yield {"n": 6, "y": list(v), "labels": lab, "full": True}
         for v in ys6:
             yield {"n": 6, "y": list(v), "labels": "01", "full": True, "inexact": True}
+        for i, v in enumerate(ys6):
+            yield {"n": 6, "y": list(v), "labels": "01", "full": False, "layout": LAYOUTS[i % len(LAYOUTS)]}
+            yield {"n": 6, "y": list(v), "labels": "01", "full": False, "layout": LAYOUTS[(i + 2) % len(LAYOUTS)], "inexact": True}
         for v in ys8:
             yield {"n": 8, "y": list(v), "labels": "01", "full": True}
             yield {"n": 8, "y": list(v), "labels": "ab", "full": False}
@@ -44,6 +50,9 @@ def cases(tier, seed):
                 yield {"n": 6, "y": list(v), "labels": "01", "full": False, "inexact": True}
             lab = ("m11", "ab", "fl")[(i + seed) % 3]
             yield {"n": 6, "y": list(v), "labels": lab, "full": False}
+            if (i + seed) % 6 == 0:
+                for lay in LAYOUTS:
+                    yield {"n": 6, "y": list(v), "labels": "01", "full": False, "layout": lay}
 
 
 def _configs(full):
@@ -91,6 +100,12 @@ def run_case(case):
     ntriv = 0
     cnt = 0
     shapes = set()
+    # the training set and the query batch as the estimator receives them (same values, another memory layout)
+    Xfit, probes_q = X, probes
+    if case.get("layout"):
+        from checks.catalog import layouts
+        Xfit = dict(layouts(X))[case["layout"]]
+        probes_q = dict(layouts(probes))[case["layout"]]
 
     def bad(kind, msg):
         sig = "DecisionTreeLogisticRegression|%s" % kind
@@ -99,16 +114,16 @@ def run_case(case):
             viol.append({"sig": sig, "msg": msg})
 
     for depth, msl, mss, algo, gamma, p1p2, est in _configs(case["full"]):
-        desc = "y=%r labels=%r max_depth=%d min_samples_leaf=%d min_samples_split=%d algo=%s gamma=%s p1p2=%s est=%s" % (
-            case["y"], lab, depth, msl, mss, algo, gamma, p1p2, est)
+        desc = "y=%r labels=%r max_depth=%d min_samples_leaf=%d min_samples_split=%d algo=%s gamma=%s p1p2=%s est=%s%s" % (
+            case["y"], lab, depth, msl, mss, algo, gamma, p1p2, est, " X and the query batch stored as: " + case["layout"] if case.get("layout") else "")
         base = LogisticRegression() if est == "logreg" else DecisionTreeClassifier(max_depth=1, random_state=0)
         try:
             m = DecisionTreeLogisticRegression(estimator=base, max_depth=depth, min_samples_leaf=msl,
                                                min_samples_split=mss, fit_improve_algo=algo, gamma=gamma, p1p2=p1p2)
-            r = m.fit(X, y)
-            proba = m.predict_proba(probes)
-            pred = m.predict(probes)
-            path = numpy.asarray(m.decision_path(probes).todense())
+            r = m.fit(Xfit, y)
+            proba = m.predict_proba(probes_q)
+            pred = m.predict(probes_q)
+            path = numpy.asarray(m.decision_path(probes_q).todense())
             leaves = [int(i) for i in m.get_leaves_index()]
             tdepth = m.tree_depth_
             nn = m.n_nodes_
